@@ -374,7 +374,7 @@ pub fn strategy() -> BoxedStrategy<Case> {
     ];
     (
         scen,
-        span_mid(),
+        prop_oneof![14 => span_mid().boxed(), 1 => span_offset().boxed()],
         any_method(),
         (fr(3.0, 10.0), fr(-3.0, 0.0)),
         prop_oneof![3 => Just(None), 2 => (1usize..10_000).prop_map(Some), 1 => (1usize..20).prop_map(Some)],
@@ -387,6 +387,7 @@ pub fn strategy() -> BoxedStrategy<Case> {
         .prop_map(|((patho, theta, fault), span, method, (re, ar), max_steps, t_eval, dense, with_event, (first_step, max_step, min_step), z)| {
             // start exactly at 0 now and then (the underflow guards compare against |x|)
             let span = if z == 0 { mk_span(0.0, span.len(), span.dir() < 0.0) } else { span };
+            let method = if method == Meth::RK4 && !rk4_can_step(&span) { Meth::RK23 } else { method };
             let rtol = 10f64.powf(-re);
             Case { patho, span, theta, method, rtol, atol: rtol * 10f64.powf(ar), max_steps, t_eval, dense, with_event, fault, first_step, max_step, min_step }
         })
